@@ -825,6 +825,12 @@ class Interp(Exec):
                 for t in s.targets:
                     if isinstance(t, ast.Name) and t.id == name and isinstance(s.value, ast.Constant):
                         return self.ev_Constant(s.value)
+                    if isinstance(t, ast.Name) and t.id == name and isinstance(s.value, ast.Tuple) and s.value.elts and all(
+                            (isinstance(e, ast.Name) and e.id in ("bool", "int", "float", "str", "bytes", "tuple", "list", "dict", "set", "frozenset"))
+                            or (isinstance(e, ast.Call) and isinstance(e.func, ast.Name) and e.func.id == "type" and len(e.args) == 1 and not e.keywords
+                                and isinstance(e.args[0], ast.Constant) and e.args[0].value is None) for e in s.value.elts):
+                        # a class-level tuple of builtin types (an isinstance filter): (type(None), bool, int, ...)
+                        return VTuple([VBuiltin(e.id) if isinstance(e, ast.Name) else VBuiltin("NoneType") for e in s.value.elts])
                     if isinstance(t, ast.Name) and t.id == name and isinstance(s.value, ast.Call) and isinstance(s.value.func, ast.Name) \
                             and s.value.func.id in self.reg.records and not s.value.keywords and all(isinstance(a, ast.Constant) for a in s.value.args):
                         # a class-level constant built from literals: RecordClass("...")
